@@ -68,9 +68,15 @@ def plan_fault_histories(case: dict, ref: dict) -> list[list[dict]]:
             hs.append([{"sigma": {}, "faults": faults, "role": "fault"}])
     # the output directory is already populated by an earlier complete run (other working directory / spelling)
     other = engine.sample_sigma(r, ["cwd", "out_spelling", "hashseed"])
-    if other.get("out_spelling") == "nested":
+    if other.get("out_spelling") in ("nested", "nested_rel"):
         other["out_spelling"] = "dot"
     hs.append([{"sigma": {}, "role": "first-of-rerun"}, {"sigma": other, "role": "rerun"}])
+    # ... or by an earlier run that failed or was killed half way
+    e = engine.pick_fault_event(r, strata)
+    if e is not None:
+        kind = r.choice(_c16.ERROR_KINDS[e["op"]] + ["crash", "crash"])
+        hs.append([{"sigma": {}, "faults": [{"sel": engine.selector_for(e), "kind": kind}], "role": "first-of-rerun"},
+                   {"sigma": {}, "role": "rerun"}])
     # obstructed output directory: a regular file where a directory is needed / a directory where the API file goes
     dirs = sorted(k for k, v in ref["out_tree"].items() if v.get("dir"))
     files = sorted(k for k, v in ref["out_tree"].items() if "sha" in v)
